@@ -148,6 +148,10 @@ func (m *DiscoverManager) connectingNodes() []string {
 		}
 	}
 	for _, node := range m.foundNodes {
+		// peers fill this table (DiscoverResMsg) and nothing bounds it: stop when there are enough nodes, the result is cut to MaxNodeCount anyway
+		if len(res) >= MaxNodeCount {
+			break
+		}
 		if node.Sequence == 0 {
 			res = append(res, node.String())
 		}
